@@ -101,6 +101,7 @@ def main(argv=None):
     ap.add_argument("-v", action="store_true")
     a = ap.parse_args(argv)
     tier = a.tier if a.tier in ("quick", "thorough") else "quick"
+    os.environ["VERIF_TIER"] = tier          # read by the bounded units and Mode B (numbers of cases, dimensions); inherited by the workers
     seed = int(os.environ.get("VERIF_SEED", "0") or 0)
     prop = a.prop
     t0 = time.time()
